@@ -733,6 +733,14 @@ class Engine:
         if id(s) not in self._loop_labels:
             self._loop_labels[id(s)] = self.next_loop_label()
         label = self._loop_labels[id(s)]
+        header = f"for {unparse(s.target)} in {unparse(s.iter)}"
+        self.loop_headers = getattr(self, "loop_headers", {})
+        self.loop_headers[label] = header
+        exp = getattr(self, "expected_headers", None)
+        if exp is not None and label in self.loop_specs and exp.get(label) not in (None, header):
+            # the loop this specification was written for is identified by its position AND its header on the validated tree; another
+            # loop in its place means the contract does not describe this code any more (a lost proof, never a violation)
+            raise Unsupported(f"loop structure changed: {label} is now `{header}`, the contract was written for `{exp.get(label)}`")
         self._cur_for = s
         it = self.iter_spec(s.iter, st)
         spec = self.loop_specs.get(label)
